@@ -449,6 +449,93 @@ fn runtimes(threads: usize, rounds: usize, seed: u64) -> Value {
            "interleaving": format!("runtimes{}x{}:{:?}", threads, rounds, warm_hist), "inputs_mutated": []})
 }
 
+/// Threads enter `compile` at the same instant with texts that are *related* but not equal:
+/// the same long expression behind 0..3 leading blanks (every offset shifts), and long literals
+/// that differ only in a few characters. Whatever a thread gets back must be the tree / value of
+/// ITS text — now, on a second compile, and when everything is re-compiled sequentially after
+/// the join. Expected positions and values are known by construction.
+fn twins(threads: usize, rounds: usize, seed: u64) -> Value {
+    use std::sync::atomic::{AtomicUsize, Ordering};
+    const X: &str = "people[?age > `20`].{name: name, total: sum(scores), shout: abs(name)} | [0]";
+    let doc = Rcvar::new(var_of(&json!({"people": [{"name": "ann", "age": 30, "scores": [1, 2]}, {"name": "bob", "age": 10, "scores": []}]})));
+    // the unpadded expression fails at a position found once, sequentially, before any thread exists
+    let base = match jmespath::compile(X).and_then(|e| e.search(&doc)) {
+        Err(e) => e.offset,
+        Ok(v) => return json!({"mode": "stress", "threads": threads, "searches": 0, "mismatches": [{"problem": "probe expression did not fail", "got": v.to_string()}], "panics": 0, "interleaving": "twins", "inputs_mutated": []}),
+    };
+    let lit = move |round: usize, t: usize| format!("`{{\"test\": \"own\", \"round\": {}, \"thread\": {}, \"labels\": [\"a\", \"b\"], \"pad\": \"{}\"}}`", round + seed as usize % 7, t, "x".repeat(t % 3));
+    let lit_want = move |round: usize, t: usize| format!("ok:{{\"labels\":[\"a\",\"b\"],\"pad\":\"{}\",\"round\":{},\"test\":\"own\",\"thread\":{}}}", "x".repeat(t % 3), round + seed as usize % 7, t);
+    let arrived = Arc::new(AtomicUsize::new(0));
+    let mut handles = vec![];
+    for t in 0..threads {
+        let (arrived, doc) = (arrived.clone(), doc.clone());
+        let lit = lit.clone();
+        let lit_want = lit_want.clone();
+        handles.push(thread::spawn(move || {
+            let mut mism: Vec<Value> = vec![];
+            let mut done = 0u64;
+            let r = catch_unwind(AssertUnwindSafe(|| {
+                for round in 0..rounds {
+                    let pad = (t + round) % 4;
+                    let text = format!("{}{}", " ".repeat(pad), X);
+                    let l = lit(round, t);
+                    arrived.fetch_add(1, Ordering::SeqCst);
+                    while arrived.load(Ordering::SeqCst) < (round + 1) * threads {
+                        std::hint::spin_loop();
+                    }
+                    let g = fp(&jmespath::compile(&text).and_then(|e| e.search(&doc)));
+                    done += 1;
+                    let want_prefix = format!("err:{}:", base + pad);
+                    if !g.starts_with(&want_prefix) && mism.len() < 3 {
+                        mism.push(json!({"mode": "twins", "thread": t, "round": round, "expression": text, "expected_error_offset": base + pad, "concurrent": g}));
+                    }
+                    for attempt in 0..2 {
+                        let g = fp(&jmespath::compile(&l).and_then(|e| e.search(&doc)));
+                        done += 1;
+                        if g != lit_want(round, t) && mism.len() < 3 {
+                            mism.push(json!({"mode": "twins", "thread": t, "round": round, "compile_number": attempt + 1, "expression": l, "known_by_construction": lit_want(round, t), "concurrent": g}));
+                        }
+                    }
+                }
+            }));
+            (mism, done, r.is_err())
+        }));
+    }
+    let mut mismatches = vec![];
+    let mut total = 0;
+    let mut panics = 0;
+    for h in handles {
+        match h.join() {
+            Ok((m, d, p)) => {
+                mismatches.extend(m);
+                total += d;
+                if p {
+                    panics += 1;
+                }
+            }
+            Err(_) => panics += 1,
+        }
+    }
+    // sequential re-compilation of everything the threads compiled
+    for round in 0..rounds {
+        for t in 0..threads {
+            let g = fp(&jmespath::compile(&lit(round, t)).and_then(|e| e.search(&doc)));
+            total += 1;
+            if g != lit_want(round, t) && mismatches.len() < 6 {
+                mismatches.push(json!({"mode": "twins", "phase": "sequential-after-race", "expression": lit(round, t), "known_by_construction": lit_want(round, t), "observed": g}));
+            }
+        }
+    }
+    for pad in 0..4 {
+        let g = fp(&jmespath::compile(&format!("{}{}", " ".repeat(pad), X)).and_then(|e| e.search(&doc)));
+        total += 1;
+        if !g.starts_with(&format!("err:{}:", base + pad)) && mismatches.len() < 6 {
+            mismatches.push(json!({"mode": "twins", "phase": "sequential-after-race", "leading_blanks": pad, "expected_error_offset": base + pad, "observed": g}));
+        }
+    }
+    json!({"mode": "stress", "threads": threads, "searches": total, "mismatches": mismatches, "panics": panics, "interleaving": format!("twins{}x{}", threads, rounds), "inputs_mutated": []})
+}
+
 fn main() {
     let a: Vec<String> = std::env::args().skip(1).collect();
     let num = |i: usize, d: u64| a.get(i).and_then(|v| v.parse().ok()).unwrap_or(d);
@@ -456,6 +543,7 @@ fn main() {
         Some("stress") => stress(num(1, 4) as usize, num(2, 1000) as usize, num(3, 1), 24, 6),
         Some("first") => first(num(1, 4) as usize, num(2, 0), 26),
         Some("burst") => burst(num(1, 4) as usize, num(2, 2000) as usize, num(3, 1)),
+        Some("twins") => twins(num(1, 4) as usize, num(2, 300) as usize, num(3, 1)),
         Some("runtimes") => runtimes(num(1, 4) as usize, num(2, 200) as usize, num(3, 1)),
         Some("small") => {
             // reduced sizes: this mode runs under Miri / ThreadSanitizer
